@@ -5,6 +5,9 @@ https://github.com/SMarone/NDInterp
 """
 
 from collections import OrderedDict
+
+import numpy as np
+
 from openmdao.surrogate_models.surrogate_model import SurrogateModel
 from openmdao.surrogate_models.nn_interpolators.linear_interpolator import \
     LinearInterpolator
@@ -93,7 +96,8 @@ class NearestNeighbor(SurrogateModel):
             Predicted value.
         """
         super().predict(x)
-        return self.interpolant(x, **kwargs)
+        # the interpolants reshape a 1-D argument in place: hand them a 2-D view so the caller's array is not changed
+        return self.interpolant(np.atleast_2d(x), **kwargs)
 
     def linearize(self, x, **kwargs):
         """
@@ -111,7 +115,7 @@ class NearestNeighbor(SurrogateModel):
         ndarray
             Jacobian of surrogate output wrt inputs.
         """
-        jac = self.interpolant.gradient(x, **kwargs)
+        jac = self.interpolant.gradient(np.atleast_2d(x), **kwargs)
         if jac.shape[0] == 1 and len(jac.shape) > 2:
             return jac[0, ...]
         return jac
